@@ -97,7 +97,7 @@ end
 
 /-! ### action lists -/
 
-theorem act_rel_m (a : ActName) (ab ab' : Ab) (habs : absAct a ab = some ab') (ms ml : M L)
+theorem act_rel_m (a : ActName) (ab ab' : Ab) (habs : phAct a ab = some ab') (ms ml : M L)
     (h : Rel cfg ab ms ml)
     (hsig : silentAct a = true ∨ ((act (envS tbl cfg) a inp ms).2 = none ∧ (act (envL tbl cfg) a inp ml).2 = none)) :
     Rel cfg ab' (act (envS tbl cfg) a inp ms).1 (act (envL tbl cfg) a inp ml).1 := by
@@ -202,18 +202,18 @@ theorem Rel_kinds {ab : Ab} {ms ml : M L} (h : Rel cfg ab ms ml) : ms.isScanner 
   obtain ⟨cs, s, xs, cl, l, xl, rfl, rfl, _⟩ := Rel_destruct h
   exact ⟨rfl, rfl⟩
 
-theorem runCalls_rel (calls : List Call) (ab ab' : Ab) (habs : absCalls calls ab = some ab')
+theorem runCalls_rel (calls : List Call) (ab ab' : Ab) (habs : phCalls calls ab = some ab')
     (hq : callsOk calls = true) (ms ml : M L) (h : Rel cfg ab ms ml)
     (hs : (runCalls (envS tbl cfg) inp calls ms).2 = none) (hl : (runCalls (envL tbl cfg) inp calls ml).2 = none) :
     Rel cfg ab' (runCalls (envS tbl cfg) inp calls ms).1 (runCalls (envL tbl cfg) inp calls ml).1 := by
   induction calls generalizing ab ms ml with
   | nil =>
-    simp only [absCalls, Option.some.injEq] at habs
+    simp only [phCalls, Option.some.injEq] at habs
     subst habs
     exact h
   | cons cl rest ih =>
-    simp only [absCalls] at habs
-    cases hab1 : absAct cl.act ab with
+    simp only [phCalls] at habs
+    cases hab1 : phAct cl.act ab with
     | none => simp [hab1] at habs
     | some ab1 =>
       simp only [hab1] at habs
@@ -312,7 +312,7 @@ theorem runSeq_rel (P : PLabels) (q : ActSeq) (self : StateId) (hok : seqOkP tbl
     (runSeq (envS tbl cfg) inp q ms).2.2 = (runSeq (envL tbl cfg) inp q ml).2.2 := by
   simp only [seqOkP, Bool.and_eq_true] at hok
   obtain ⟨hq, hok⟩ := hok
-  cases habs : absCalls q.calls (P.at self) with
+  cases habs : phCalls q.calls (P.at self) with
   | none => simp [habs] at hok
   | some ab' =>
     simp only [habs] at hok
@@ -533,7 +533,7 @@ theorem afterSeq_rel (P : PLabels) (self : StateId) (ch : Option UInt8) (arms : 
   cases hf : findArm (envL tbl cfg).tbl ml.c ch arms with
   | none => exact StepRel.both_some (by simp) (by simp)
   | some arm =>
-    have harm := hsub arm (findArm_some hf).1
+    have harm := hsub arm (findArm_sel hf).1
     dsimp only
     split
     · exact finishArm_rel P arm.body self harm ms ml h hst
@@ -632,7 +632,7 @@ def consumeStep {κ : Type} (env : Env κ) (inp : Bytes) (sd : StateDef) (m : M 
     let ch := inp[m.c.nextPos]?
     dispatch env inp ch sd.arms { m with c := { m.c with nextPos := m.c.nextPos + 1 } }
 
-theorem stateFn_eq {κ : Type} (env : Env κ) (m : M κ) :
+theorem stateFn_split {κ : Type} (env : Env κ) (m : M κ) :
     stateFn env inp m =
       (match env.tbl.state? m.c.state with
        | none => (m, some (.err (.panic "unknown state")))
@@ -726,7 +726,7 @@ theorem stateFn_rel (P : PLabels) (hok : PhaseOk tbl P = true) (ms ml : M L) (h 
     StepRel cfg P (stateFn (envS tbl cfg) inp ms) (stateFn (envL tbl cfg) inp ml) := by
   unfold RelAt at h
   obtain ⟨_, _, f3, _⟩ := Rel_fields h
-  rw [stateFn_eq, stateFn_eq]
+  rw [stateFn_split, stateFn_split]
   show StepRel cfg P (match tbl.state? ms.c.state with | none => _ | some sd => _)
     (match tbl.state? ml.c.state with | none => _ | some sd => _)
   rw [← f3]
